@@ -53,7 +53,7 @@ pub fn resolve_addr(
 
         if opts.debug_iterations
         {
-            println!(" addr: {:?}", addr.address);
+            debug_println!(" addr: {:?}", addr.address);
         }
         
         return Ok(asm::ResolutionState::Unresolved);
